@@ -72,8 +72,10 @@ def read_text_verbatim(path: PathLike) -> str:
 
     Path.read_text() turns every \\r\\n into \\n; a page that is read this way,
     changed in one line and written back would lose its line endings everywhere.
+    Bytes that are not valid UTF-8 (e.g. a page saved as ISO-8859-1) come back
+    as lone surrogates, which the writers below turn into the same bytes again.
     """
-    with Path(path).open(newline="") as file:
+    with Path(path).open(newline="", errors="surrogateescape") as file:
         return file.read()
 
 
@@ -85,7 +87,7 @@ def atomic_write_text(path: PathLike, contents: str) -> None:
     """
     path = Path(path)
     tmp_path = path.with_name(f".{path.name}.tmp")
-    tmp_path.write_text(contents)
+    tmp_path.write_text(contents, errors="surrogateescape")
     tmp_path.replace(path)
 
 
